@@ -542,3 +542,13 @@ def history_builder(build, method, mutable, self_key='self'):
         out[self_key] = obj
         return out
     return hbuild
+
+
+def other_instance_builder(build, method, self_key='self'):
+    """Pre-state family 'another instance of the class, with other parameters, was used earlier in this process':
+    catches state shared between instances (class-level caches, module-level registries)."""
+    def obuild(f):
+        a1 = build(PrefixFactory(f, 'o!'))
+        f.call(a1[self_key], method, **dict((k, v) for k, v in a1.items() if k != self_key and not k.startswith('_')))
+        return build(f)
+    return obuild
